@@ -259,7 +259,7 @@ def run_e2(res, tier):
                 res.violation({"kind": "behaviour", "cls": "wire", "pid": pid, "what": "%s %s::%s serialises under `%s`" % (pid, label, mname, keys[0])})
     res.parts["e2_programs"] = len(info)
     res.parts["e2_cases"] = len(cases)
-    res.sample({"e2_case": {k: v for k, v in cases[7].items()}, "observation": obs[7]})
+    res.sample(lambda: {"e2_case": {k: v for k, v in cases[7].items()}, "observation": obs[7]})
 
 
 def run(tier):
